@@ -15,6 +15,7 @@ ORDER_PRESERVING = {
     "get_index_of", "get_key_value", "contains_key", "shift_remove", "shift_remove_entry", "shift_remove_full",
     "shift_remove_index", "retain", "iter", "iter_mut", "keys", "values", "values_mut", "len", "is_empty",
     "first", "last", "clone", "extend", "into_iter", "fmt", "eq", "capacity", "reserve", "shrink_to_fit", "index",
+    "get_index_mut", "get_full_mut", "get_key_value_mut", "index_mut", "first_mut", "last_mut", "get_range", "as_slice",
 }
 ENTRY_OK = {"or_default", "or_insert", "or_insert_with", "or_insert_with_key", "key", "and_modify", "index"}
 ORDER_BREAKING = {
@@ -115,7 +116,9 @@ def run(facts, rep, ctx):
             else:
                 # &mut handed to something we have no contract for
                 mutable = term[0] == "ref" and term[2]
-                if mutable:
+                if mutable and is_indexmap:
+                    rep.inconc(R2, "%s passes &mut entries to %s, an IndexMap operation this rule has no contract for" % (b.name, nm))
+                elif mutable:
                     rep.violation(R2, b.name, key, "passes &mut entries to %s, which is not a known order-preserving operation" % nm, where)
                 else:
                     rep.ok(R2, {"fn": b.name, "op": nm, "shared": True})
@@ -156,24 +159,43 @@ def run(facts, rep, ctx):
     b, paths = paths_of("delete_message")
     if paths:
         bad = None
-        for p in paths:
-            if p.end != "ret":
-                bad = "a path does not return normally (%s)" % p.end
-                continue
+        unk = None
+        rets = [p for p in paths if p.end == "ret"]
+        if not rets:
+            unk = "no returning path"
+        for p in rets:
             rm = [e for e in p.events if e["k"] == "call" and e["callee"] and "indexmap::IndexMap" in e["callee"]
-                  and e["callee"].rsplit("::", 1)[-1] in ("shift_remove", "shift_remove_entry", "shift_remove_full")]
+                  and e["callee"].rsplit("::", 1)[-1] in ("shift_remove", "shift_remove_entry", "shift_remove_full", "shift_remove_index")]
             if not rm:
-                bad = "a path returns without an order-preserving removal on entries"
+                # a no-op is right when the caller's key was looked up and is absent
+                absent = False
+                for (bb_, term, vals, neg, dty) in p.conds:
+                    look = [x for x in walk(term) if x[0] == "call" and "indexmap::IndexMap" in x[1] and x[1].rsplit("::", 1)[-1] in ("get_index_of", "get", "contains_key", "get_full")
+                            and len(x[2]) > 1 and strip_refs(x[2][1])[0] == "param" and strip_refs(x[2][1])[1] == 2]
+                    if look and ((term[0] == "discr" and ((vals == (0,)) != neg)) or (term[0] == "call" and ((vals == (0,)) != neg))):
+                        absent = True
+                if absent:
+                    continue
+                if any(e["k"] == "call" and e["callee"] and "indexmap::" in e["callee"] and e["args"] and e["args"][0][0] == "ref" and e["args"][0][2] for e in p.events):
+                    unk = "a path changes entries without a recognised order-preserving removal"
+                else:
+                    bad = "a path returns without an order-preserving removal on entries"
                 continue
             for e in rm:
                 k = strip_refs(e["args"][1])
-                if not (k[0] == "param" and k[1] == 2):
+                by_index = e["callee"].endswith("shift_remove_index")
+                if by_index:
+                    if not any(x[0] == "call" and x[1].endswith("get_index_of") and len(x[2]) > 1 and strip_refs(x[2][1])[0] == "param" and strip_refs(x[2][1])[1] == 2 for x in walk(e["args"][1])):
+                        unk = "removes by an index that is not get_index_of(caller's key)"
+                elif not (k[0] == "param" and k[1] == 2):
                     bad = "removes key %s instead of the caller's key" % fmt(e["args"][1])
                 tgt = strip_refs(e["args"][0])
                 if not (tgt[0] == "field" and tgt[2] == "entries"):
                     bad = "removes from %s" % fmt(e["args"][0])
         if bad:
             rep.violation(R3, b.name, "delete-shape", "delete_message: " + bad, "%s:%s" % (b.file, b.line))
+        elif unk:
+            rep.inconc(R3, "delete_message: " + unk)
         else:
             rep.ok(R3, {"fn": b.name, "paths": len(paths)})
 
@@ -181,10 +203,12 @@ def run(facts, rep, ctx):
     stored_ok = None
     if paths:
         bad = None
+        unk = None
+        if not [p for p in paths if p.end == "ret"]:
+            unk = "no returning path"
         for p in paths:
             if p.end != "ret":
-                bad = "a path does not return normally (%s)" % p.end
-                continue
+                continue        # loop-cut prefixes and panicking arms (`expect`) are not results
             dirty = [e for e in p.events if e["k"] == "write" and e["place"][0] == "field" and e["place"][2] == "dirty"]
             if not dirty or not all(e["val"] == ("const", True, "bool") for e in dirty):
                 bad = "a path returns without setting dirty = true"
@@ -197,7 +221,16 @@ def run(facts, rep, ctx):
                     if sh in ("or_default", "or_insert", "or_insert_with"):
                         ups.append(("entry", e))
             if not ups:
-                bad = "a path returns without an upsert on entries"
+                # overwrite in place through get_mut / get_index_mut(get_index_of(key))
+                inplace = [e for e in p.events if e["k"] == "call" and e["callee"] and "indexmap::" in e["callee"] and e["callee"].rsplit("::", 1)[-1] in ("get_mut", "get_index_mut", "get_full_mut")]
+                slot_w = [w for w in p.events if w["k"] == "write" and any(x[0] == "call" and "indexmap::" in x[1] and x[1].rsplit("::", 1)[-1] in ("get_mut", "get_index_mut", "get_full_mut") for x in walk(w["place"]))]
+                if inplace and slot_w and any(x[0] == "param" and x[1] == 2 for e in inplace for x in walk(e["args"][1])):
+                    stored_ok = slot_w[-1]["val"]
+                    continue
+                if inplace or slot_w:
+                    unk = "a path updates entries in a way that is not recognised"
+                else:
+                    bad = "a path returns without an upsert on entries"
                 continue
             kind, e = ups[-1]
             if kind == "entry":
@@ -221,6 +254,8 @@ def run(facts, rep, ctx):
                 stored_ok = e["args"][2]
         if bad:
             rep.violation(R3, b.name, "set-shape", "set_message: " + bad, "%s:%s" % (b.file, b.line))
+        elif unk:
+            rep.inconc(R3, "set_message: " + unk)
         else:
             rep.ok(R3, {"fn": b.name, "paths": len(paths)})
             rep.ok(R3, {"fn": b.name, "dirty": "set on every path"})
@@ -328,7 +363,7 @@ def run(facts, rep, ctx):
         found = False
         for bb, t in fb.calls():
             nm = callee_names(t)[1] or callee_names(t)[0] or ""
-            if "indexmap::IndexMap" in nm and nm.rsplit("::", 1)[-1] in (op, "get", "contains_key", "get_full", "get_key_value"):
+            if "indexmap::IndexMap" in nm and nm.rsplit("::", 1)[-1] in (op, "get", "contains_key", "get_full", "get_key_value", "get_index_of"):
                 tgt = strip_refs(fb.term_of_operand(t["args"][0]))
                 k = strip_refs(fb.term_of_operand(t["args"][1]))
                 if tgt[0] == "field" and tgt[2] == "entries" and k[0] == "param" and k[1] == 2:
